@@ -102,6 +102,24 @@ Theorem C17_greedy_nonneg_Q : forall signal response off la r inp,
 Proof. exact greedy_nonneg_Q_lemma. Qed.
 Print Assumptions C17_greedy_nonneg_Q.
 
+(* For binary64 the three laws are PROVED (IEEE sign rule of division read off SpecFloat through the
+   standard library's FloatAxioms div_spec/leb_spec/ltb_spec): for ALL float inputs - NaN, infinities,
+   subnormals, signed zeros - no output sample of a sweep or of the selection (pads 3..=5 x 7..=12, wires
+   0..=1 x 3..=12, any grid) is negative or -0: each is NaN or has its sign bit clear. *)
+Theorem C17_greedy_nonneg_f64 : forall signal response off la r inp,
+  nn_greedy_f signal response off la = Ok (r, inp) -> Forall f_ge0 inp.
+Proof. exact greedy_nonneg_f64_lemma. Qed.
+Print Assumptions C17_greedy_nonneg_f64.
+
+Theorem C17_ls_deconv_nonneg_f64 : forall signal response offs las out,
+  ls_deconv_f signal response offs las = Ok out -> Forall f_ge0 out.
+Proof. exact ls_nonneg_f64_lemma. Qed.
+Print Assumptions C17_ls_deconv_nonneg_f64.
+
+Theorem C17_f_ge0_reading : forall x : float, f_ge0 x -> is_nan x = true \/ (0 <=? x)%float = true.
+Proof. exact f_ge0_spec_lemma. Qed.
+Print Assumptions C17_f_ge0_reading.
+
 (* (5) Scale covariance.  If x |-> sc x (multiplication by c) commutes exactly with - x / min, leaves
    0 and the comparison with 0 unchanged, and sc2 (multiplication by c^2) does the same for the sum of
    squares and the comparisons of residuals, then scaling every sample scales every output by c, the
